@@ -142,6 +142,7 @@ type State struct {
 	doneChan  map[string]string // channel term -> context term (results of ctx.Done())
 	ctxDone   map[string]bool   // contexts whose Done channel was received from on this path
 	elemsDone   map[string]string // row|off -> named row for which the elems axioms were already assumed on this path (copy on write)
+	pendingDone map[string]string // set by a call by contract whose postcondition mentions done(ctx): split after the call
 	skipStable  bool // the instruction being executed havocked guarded state on behalf of other threads (Cond.Wait)
 	lastRelease map[string]map[string]string // lock key -> heaps at this path's last release (copy on write)
 	gvars     map[string]Val // mutable ghost variables of the unit
@@ -355,7 +356,10 @@ func (st *State) heapTypingAt(name, sym, frontier string) {
 		return
 	}
 	t, ok := heapValType[name]
-	if !ok || !needsInv(t) {
+	if !ok {
+		return
+	}
+	if _, isStruct := t.Underlying().(*types.Struct); !isStruct && !needsInv(t) {
 		return
 	}
 	// only scalar-valued heaps: quantified invariants over datatype-valued (slice, interface, string) selects made
@@ -367,9 +371,32 @@ func (st *State) heapTypingAt(name, sym, frontier string) {
 	}
 	if s := sortOf(t); s != "Int" {
 		// slice-valued map entries: heap closedness only
+		if s == "Slice" && strings.HasPrefix(name, "E!") {
+			if rb := refBound("(select (select "+sym+" r!t) k!t)", t, frontier); rb != "" {
+				st.pc = append(st.pc, fmt.Sprintf("(forall ((r!t Int) (k!t Int)) (! %s :pattern ((select (select %s r!t) k!t))))", rb, sym))
+			}
+		}
 		if s == "Slice" && strings.HasPrefix(name, "MV!") {
 			if rb := refBound("(select (select "+sym+" r!t) k!t)", t, frontier); rb != "" {
 				st.pc = append(st.pc, fmt.Sprintf("(forall ((r!t Int) (k!t %s)) (! %s :pattern ((select (select %s r!t) k!t))))", heapKeySort[name], rb, sym))
+			}
+		}
+		// struct-valued elements and map entries: heap closedness of their reference fields
+		if stt, ok := t.Underlying().(*types.Struct); ok && (strings.HasPrefix(name, "E!") || strings.HasPrefix(name, "MV!")) {
+			sn := reg.structSort(stt, typeHint(t))
+			ks := "Int"
+			if strings.HasPrefix(name, "MV!") {
+				ks = heapKeySort[name]
+			}
+			elem := "(select (select " + sym + " r!t) k!t)"
+			var cs []string
+			for i := 0; i < stt.NumFields(); i++ {
+				if rb := refBound(fmt.Sprintf("(%s_f%d %s)", sn, i, elem), stt.Field(i).Type(), frontier); rb != "" {
+					cs = append(cs, rb)
+				}
+			}
+			if len(cs) > 0 {
+				st.pc = append(st.pc, fmt.Sprintf("(forall ((r!t Int) (k!t %s)) (! %s :pattern (%s)))", ks, and(cs...), elem))
 			}
 		}
 		return
